@@ -108,6 +108,7 @@ type Path struct {
 	fnsHit    map[*ssa.Function]bool
 	nQueries  int
 	mapOrderRev bool
+	mapOrderAlt bool
 	mapRanges   int // iterations over unobserved maps of more than one entry
 	relevant     map[*Var]bool
 	pending      map[*Var][]*Term
